@@ -681,7 +681,7 @@ def tt_cp_apr_pdnr(  # noqa: PLR0912,PLR0913,PLR0915
 
             # Print outer iteration status.
             if (printitn > 0) and (divmod(iteration, printitn)[1] == 0):
-                fnVals[iteration] = -tt_loglikelihood(input_tensor, M)
+                fnVals[iteration] = -tt_loglikelihood(input_tensor, M.copy())
                 print(
                     f"{iteration}. Ttl Inner Its: {nInnerIters[iteration]}, "
                     f"KKT viol = {kktViolations[iteration]}, obj = {fnVals[iteration]}"
@@ -1084,7 +1084,7 @@ def tt_cp_apr_pqnr(  # noqa: PLR0912,PLR0913,PLR0915
 
         # Print outer iteration status.
         if (printitn > 0) and (divmod(iteration, printitn)[1] == 0):
-            fnVals[iteration] = -tt_loglikelihood(input_tensor, M)
+            fnVals[iteration] = -tt_loglikelihood(input_tensor, M.copy())
             print(
                 f"{iteration}. Ttl Inner Its: {nInnerIters[iteration]}, KKT viol = "
                 f"{kktViolations[iteration]}, obj = {fnVals[iteration]}, nz: {num_zero}"
